@@ -485,7 +485,7 @@ def azimuthal(
             [np.asarray(xdata)[:, np.newaxis], np.asarray(ydata)[:, np.newaxis]], axis=1
         )
     data, array_mask = extract_transformed_data(
-        data, transformed=False, klass=AzimuthalHistogram, dropna=dropna
+        data, transformed=transformed, klass=AzimuthalHistogram, dropna=dropna
     )
     if isinstance(bins, int):
         bins = np.linspace(*range, bins + 1)
